@@ -16,7 +16,7 @@ package outbounds
 
 import (
 	"fmt"
-	"testing/synctest"
+	"time"
 
 	"verif.local/hysim"
 )
@@ -113,8 +113,7 @@ func execC08acl(x *hysim.Run) {
 		x.NonTrivial()
 	}
 	x.Drain(0)
-	synctest.Wait()
-	if al := x.Alive(); len(al) != 0 {
+	if al := x.WaitTasks(time.Second); len(al) != 0 {
 		x.Violate("goroutine-leak", "caller tasks still alive: %v", al)
 	}
 }
